@@ -122,8 +122,8 @@ static void testExceptionAndReuse() {
     gpuemu::barrier();
     trace.push_back(10 + (int) gpuemu::cur().local[0]);
   });
-  const int expect[6] = {0, 1, 2, 10, 11, 12};
-  CHECK(trace.size() == 6 && !std::memcmp(&trace[0], expect, sizeof(expect)), "phase order");
+  const int expectAsc[6] = {0, 1, 2, 10, 11, 12}, expectDesc[6] = {2, 1, 0, 12, 11, 10};
+  CHECK(trace.size() == 6 && !std::memcmp(&trace[0], gpuemu::wg::descendingOrder() ? expectDesc : expectAsc, sizeof(expectAsc)), "phase order");
 }
 
 static void testSyclLocal() {
